@@ -69,9 +69,11 @@ func main() {
 			dir := *keep
 			if dir == "" {
 				dir, _ = os.MkdirTemp("", "govc")
-				defer os.RemoveAll(dir)
 			}
 			res.Obls = dischargeGroups(res.Obls, dir, *timeout, *workers)
+			if *keep == "" {
+				os.RemoveAll(dir) // (a deferred removal would be skipped by os.Exit below)
+			}
 			printResult(res, *verbose)
 			if *show != "" {
 				for _, o := range res.Obls {
